@@ -893,6 +893,12 @@ class SimPopen(_InfoMixin):
         if self._gone or self._reused():
             raise NoSuchProcess(self.pid)
         k.send_signal_calls += 1
+        if sig == 9 and k.signal_fail_plan.get(-9):
+            # (plan key -9: the first SIGKILLs are refused)
+            k.signal_fail_plan[-9] -= 1
+            k.signal_failures += 1
+            k.sim.rec('signal_eperm', self.pid, sig)
+            raise _simulated(psutil.AccessDenied(self.pid))
         if k.send_signal_calls in k.signal_fail_plan:
             k.signal_failures += 1
             k.sim.rec('signal_eperm', self.pid, sig)
